@@ -6,7 +6,10 @@ import (
 	"go/constant"
 	"go/token"
 	"go/types"
+	"sort"
 	"strings"
+
+	"golang.org/x/tools/go/cfg"
 )
 
 // RQ12 (C12): a raw rune is handed to the generated parser as a token code only when it is one of
@@ -561,4 +564,519 @@ func rk4IndexListsAsSets(w *World) {
 		}
 	}
 	w.floor("reads of PublicDependency/WeakDependency outside the builder", n, 3)
+}
+
+// RD3 (C07): the outcome fields of a compile result are written only as part of publishing it.
+// The goroutine's recover handler decides "was anything delivered yet?" from `r.err == nil`, and
+// waiters read r.res / r.err after <-r.ready. Both are sound only if every write of result.res or
+// result.err is followed at once — no call, no function exit, deferred calls included — by
+// close(r.ready) on every path. A write that is separated from the close by a call that may panic
+// (a deferred Source.Close()) leaves a result that the handler takes for delivered while nobody
+// ever closes ready: the compile hangs and the panic value is lost.
+func rd3OutcomeWrittenWithClose(w *World) {
+	w.rule("RD3")
+	p := w.pkg("")
+	resF := w.field("", "result", "res")
+	errF := w.field("", "result", "err")
+	readyF := w.field("", "result", "ready")
+	if p == nil || resF == nil || errF == nil || readyF == nil {
+		return
+	}
+	info := p.TypesInfo
+	isWrite := func(n ast.Node) bool {
+		as, ok := n.(*ast.AssignStmt)
+		if !ok {
+			return false
+		}
+		for _, l := range as.Lhs {
+			if f := selField(info, l); f == resF || f == errF {
+				return true
+			}
+		}
+		return false
+	}
+	isClose := func(c *ast.CallExpr) bool {
+		return isBuiltinCall(info, c, "close") && len(c.Args) == 1 && selField(info, c.Args[0]) == readyF
+	}
+	n := 0
+	var scan func(label string, body *ast.BlockStmt, hasDefer bool)
+	scan = func(label string, body *ast.BlockStmt, _ bool) {
+		// nested literals are functions of their own
+		for _, fl := range funcLits(body) {
+			scan(label+"$lit", fl.Body, false)
+		}
+		has := false
+		defers := false
+		ast.Inspect(body, func(x ast.Node) bool {
+			if _, ok := x.(*ast.FuncLit); ok {
+				return false
+			}
+			if isWrite(x) {
+				has = true
+			}
+			if _, ok := x.(*ast.DeferStmt); ok {
+				defers = true
+			}
+			return true
+		})
+		if !has {
+			return
+		}
+		g := buildCFG(info, body)
+		// may-analysis: fact "pending" = an outcome field has been written and ready not yet closed
+		d := &Dataflow{G: g, Must: false, Init: Facts{}}
+		var bad []string
+		record := func(pos token.Pos, what string) {
+			bad = append(bad, what+" at "+w.pos(pos))
+		}
+		d.Transfer = func(nd ast.Node, in Facts) Facts {
+			out := in
+			if _, isDefer := nd.(*ast.DeferStmt); isDefer {
+				return out
+			}
+			// calls inside this node, in evaluation order; the assignment takes effect last
+			inspectPost(nd, func(x ast.Node) {
+				if _, ok := x.(*ast.FuncLit); ok {
+					return
+				}
+				if c, ok := x.(*ast.CallExpr); ok {
+					if isClose(c) {
+						out = out.without("pending")
+					}
+				}
+			})
+			if isWrite(nd) {
+				out = out.with("pending")
+			}
+			return out
+		}
+		d.Run()
+		d.Walk(func(_ *cfg.Block, nd ast.Node, before Facts) {
+			if !before["pending"] {
+				return
+			}
+			if _, isDefer := nd.(*ast.DeferStmt); isDefer {
+				return
+			}
+			if isWrite(nd) {
+				// a second field of the same outcome: its right-hand side must not call
+				as := nd.(*ast.AssignStmt)
+				for _, r := range as.Rhs {
+					if len(callsIn(r)) > 0 {
+						record(nd.Pos(), "a call in "+types.ExprString(r))
+					}
+				}
+				return
+			}
+			for _, c := range callsIn(nd) {
+				if isClose(c) {
+					return
+				}
+				if tv, ok := info.Types[c.Fun]; ok && tv.IsType() {
+					continue
+				}
+				record(c.Pos(), "the call "+types.ExprString(c.Fun)+"(…)")
+				return
+			}
+		})
+		for _, e := range d.Exits(info, body.End()) {
+			if e.State["pending"] {
+				what := "the end of the function"
+				if defers {
+					what += " (its deferred calls run next)"
+				}
+				record(e.Pos, what)
+			}
+		}
+		n++
+		key := "outcome-with-close|" + label
+		if len(bad) == 0 {
+			w.ok(key, body.Pos(), "every write of result.res / result.err is followed immediately by close(result.ready)")
+		} else {
+			sort.Strings(bad)
+			w.violation(key, body.Pos(), "result.res / result.err is written and ready is not closed at once: "+strings.Join(bad, "; ")+" comes first — a panic there finds `r.err != nil` (or a result already stored) in the recover handler, which then delivers nothing: ready is never closed, Compile and every importer of the file hang, and the panic value is lost")
+		}
+	}
+	for _, b := range allFuncBodies(p) {
+		if b.Lit != nil {
+			continue
+		}
+		scan(b.Label, b.Body, false)
+	}
+	w.floor("functions that write result.res / result.err", n, 2)
+}
+
+// R35b (C35): a query key is an injective image of what Execute reads. R35 checks that every
+// receiver field Execute reads *flows* into Key(); R35b checks how: in a Key() body, data derived
+// from the receiver may be copied, selected, put into a struct, converted, joined with a separator
+// or formatted, but must not pass through a function that forgets something — sorting or
+// compacting (order, multiplicity: Link's result lists files in workspace order and reports the
+// *first* of two clashing extensions), len, case folding, trimming, base names, hashing. Two
+// queries that differ in what was forgotten would share one cache entry, so a long-lived executor
+// answers the second with the first one's result.
+func r35bKeyInjective(w *World) {
+	w.rule("R35b")
+	p := w.pkg(queriesRel)
+	if p == nil {
+		return
+	}
+	info := p.TypesInfo
+	lossy := map[string]string{
+		"slices.Sort": "order", "slices.SortFunc": "order", "slices.SortStableFunc": "order", "slices.Sorted": "order", "slices.SortedFunc": "order",
+		"slices.Compact": "multiplicity", "slices.CompactFunc": "multiplicity", "sort.Strings": "order", "sort.Slice": "order", "sort.Sort": "order", "sort.Stable": "order",
+		"maps.Keys": "order", "maps.Values": "order",
+		"strings.ToLower": "case", "strings.ToUpper": "case", "strings.TrimSpace": "surrounding space", "strings.Trim": "trimmed characters", "strings.TrimSuffix": "a suffix", "strings.TrimPrefix": "a prefix", "strings.Fields": "spacing",
+		"path.Base": "the directory", "path/filepath.Base": "the directory", "path.Clean": "path spelling", "path/filepath.Clean": "path spelling", "path.Dir": "the file name", "path/filepath.Dir": "the file name",
+		"len": "everything but the length", "cap": "everything",
+	}
+	injective := map[string]bool{
+		"strings.Join": true, "fmt.Sprintf": true, "fmt.Sprint": true, "slices.Values": true, "slices.Collect": true, "slices.Clone": true, "strconv.Itoa": true, "strconv.Quote": true,
+	}
+	n := 0
+	for _, f := range p.Syntax {
+		for _, d := range f.Decls {
+			fd, ok := d.(*ast.FuncDecl)
+			if !ok || fd.Recv == nil || fd.Body == nil || fd.Name.Name != "Key" || len(fd.Recv.List) != 1 {
+				continue
+			}
+			tname := types.ExprString(fd.Recv.List[0].Type)
+			n++
+			var bad, unknown []string
+			ast.Inspect(fd.Body, func(x ast.Node) bool {
+				c, ok := x.(*ast.CallExpr)
+				if !ok {
+					return true
+				}
+				if tv, ok := info.Types[c.Fun]; ok && tv.IsType() {
+					return true // conversion
+				}
+				name := ""
+				if id, ok := ast.Unparen(c.Fun).(*ast.Ident); ok {
+					if _, isB := info.Uses[id].(*types.Builtin); isB {
+						name = id.Name
+					}
+				}
+				if name == "" {
+					if fn := callee(info, c); fn != nil && fn.Pkg() != nil {
+						name = fn.Pkg().Path() + "." + fn.Name()
+						if sig, ok := fn.Type().(*types.Signature); ok && sig.Recv() != nil {
+							// a method: accessors of the receiver's own fields (Paths(), String(), Name()) return content
+							name = "method " + fn.Name()
+						}
+					}
+				}
+				switch {
+				case lossy[name] != "":
+					bad = append(bad, fmt.Sprintf("%s (forgets %s) at %s", name, lossy[name], w.pos(c.Pos())))
+				case injective[name], strings.HasPrefix(name, "method "), name == "append", name == "make", name == "new":
+				case name == "":
+					unknown = append(unknown, types.ExprString(c.Fun)+" at "+w.pos(c.Pos()))
+				default:
+					unknown = append(unknown, name+" at "+w.pos(c.Pos()))
+				}
+				return true
+			})
+			key := "key-injective|" + tname
+			switch {
+			case len(bad) > 0:
+				w.violation(key, fd.Pos(), tname+".Key() passes the query through "+strings.Join(bad, "; ")+": two queries that differ only in what is forgotten share one cache entry, although "+tname+".Execute's result depends on it — a long-lived executor then returns the first query's result for the second, a fresh one does not")
+			case len(unknown) > 0:
+				w.undecided(key, fd.Pos(), tname+".Key() computes the key through "+strings.Join(unknown, "; ")+", which the rule cannot classify as content-preserving")
+			default:
+				w.ok(key, fd.Pos(), "the key is built from the query by copying, selecting and composing only")
+			}
+		}
+	}
+	w.floor("Key() methods in experimental/incremental/queries", n, 6)
+}
+
+// R35c (C35): what a query computes does not depend on the executor's cache state.
+// incremental.Result.Changed says whether a dependency was (re)computed during the current Run —
+// a fact about the cache, not about the inputs. A query may use it to skip work whose outcome is
+// unchanged, but a branch on it that decides whether a dependency is resolved (incremental.Resolve
+// under the branch), whether a diagnostic is reported, or what is returned makes the dependency
+// set and the output differ between a long-lived executor (dependency already cached: Changed
+// false) and a fresh one (Changed true).
+func r35cNoCacheStateDependence(w *World) {
+	w.rule("R35c")
+	p := w.pkg(queriesRel)
+	ip := w.pkg(incRel)
+	if p == nil || ip == nil {
+		return
+	}
+	info := p.TypesInfo
+	isChanged := func(e ast.Expr) bool {
+		sel, ok := ast.Unparen(e).(*ast.SelectorExpr)
+		if !ok || sel.Sel.Name != "Changed" {
+			return false
+		}
+		f, ok := info.Uses[sel.Sel].(*types.Var)
+		return ok && f.IsField() && f.Pkg() == ip.Types
+	}
+	nExec, nReads := 0, 0
+	for _, b := range allFuncBodies(p) {
+		if b.Lit != nil {
+			continue
+		}
+		if b.Obj.Name() == "Execute" {
+			nExec++
+		}
+		ast.Inspect(b.Body, func(x ast.Node) bool {
+			var cond ast.Expr
+			var body ast.Node
+			switch s := x.(type) {
+			case *ast.IfStmt:
+				cond, body = s.Cond, s
+			case *ast.SwitchStmt:
+				if s.Tag != nil {
+					cond, body = s.Tag, s
+				}
+			case *ast.CaseClause:
+				for _, ce := range s.List {
+					hit := false
+					ast.Inspect(ce, func(y ast.Node) bool {
+						if e, ok := y.(ast.Expr); ok && isChanged(e) {
+							hit = true
+						}
+						return !hit
+					})
+					if hit {
+						cond, body = ce, s
+					}
+				}
+			}
+			if cond == nil {
+				return true
+			}
+			reads := false
+			ast.Inspect(cond, func(y ast.Node) bool {
+				if e, ok := y.(ast.Expr); ok && isChanged(e) {
+					reads = true
+				}
+				return !reads
+			})
+			if !reads {
+				return true
+			}
+			nReads++
+			var effects []string
+			ast.Inspect(body, func(y ast.Node) bool {
+				switch z := y.(type) {
+				case *ast.CallExpr:
+					if f := callee(info, z); f != nil && f.Pkg() == ip.Types && (f.Name() == "Resolve" || f.Name() == "Report") {
+						effects = append(effects, "incremental."+f.Name()+" at "+w.pos(z.Pos()))
+					}
+				case *ast.ReturnStmt:
+					effects = append(effects, "a return at "+w.pos(z.Pos()))
+				}
+				return true
+			})
+			key := "cache-state-branch|" + b.Label + "|" + types.ExprString(cond)
+			if len(effects) > 0 {
+				w.violation(key, cond.Pos(), "a branch on Result.Changed controls "+strings.Join(effects, "; ")+": Changed is true on a fresh executor and false when the dependency is already cached, so the dependencies this query registers, the diagnostics it reports or the value it returns differ between a long-lived executor and a brand-new one on the same files")
+			} else {
+				w.ok(key, cond.Pos(), "the branch on Result.Changed neither resolves dependencies, nor reports, nor returns")
+			}
+			return true
+		})
+	}
+	w.info("cache-state-branch|reads", token.NoPos, fmt.Sprintf("%d branches on Result.Changed in %d Execute methods", nReads, nExec))
+	w.floor("Execute methods in experimental/incremental/queries", nExec, 6)
+}
+
+// RA4f (C17): a roll-back list contains only what this call inserted. When an import backs out
+// its own registrations after a failure, the list it deletes by must hold exactly the keys whose
+// insertion succeeded. Found by shape: a function that deletes from a guarded table of
+// packageSymbols while ranging over a slice parameter is a roll-back; at every call the slice
+// argument is traced to its appends, and each append must be preceded, on every path inside the
+// function (or function literal) that contains it, by a successful call of an inserter of that
+// table — recording the key *before* trying to insert it puts the colliding key, which belongs to
+// another file, on the list, and the roll-back then deletes that file's registration.
+func ra4fRollbackOwnsKeys(w *World) {
+	w.rule("RA4f")
+	p := w.pkg("linker")
+	ps := w.typ("linker", "packageSymbols")
+	if p == nil || ps == nil {
+		return
+	}
+	info := p.TypesInfo
+	st, _ := ps.Underlying().(*types.Struct)
+	tableFields := map[*types.Var]bool{}
+	for i := 0; st != nil && i < st.NumFields(); i++ {
+		if _, isMap := st.Field(i).Type().Underlying().(*types.Map); isMap {
+			tableFields[st.Field(i)] = true
+		}
+	}
+	// inserters per table field: functions that assign table[k] = v, plus their direct callers
+	inserters := map[*types.Var]map[*types.Func]bool{}
+	for _, b := range allFuncBodies(p) {
+		if b.Lit != nil {
+			continue
+		}
+		ast.Inspect(b.Body, func(x ast.Node) bool {
+			as, ok := x.(*ast.AssignStmt)
+			if !ok {
+				return true
+			}
+			for _, l := range as.Lhs {
+				if ix, ok := ast.Unparen(l).(*ast.IndexExpr); ok {
+					if f := selField(info, ix.X); f != nil && tableFields[f] {
+						if inserters[f] == nil {
+							inserters[f] = map[*types.Func]bool{}
+						}
+						inserters[f][b.Obj] = true
+					}
+				}
+			}
+			return true
+		})
+	}
+	for _, set := range inserters {
+		for _, b := range allFuncBodies(p) {
+			if b.Lit != nil {
+				continue
+			}
+			ast.Inspect(b.Body, func(x ast.Node) bool {
+				if c, ok := x.(*ast.CallExpr); ok {
+					if f := callee(info, c); f != nil && set[f] && f != b.Obj {
+						set[b.Obj] = true
+					}
+				}
+				return true
+			})
+		}
+	}
+	nRollbacks := 0
+	for _, b := range allFuncBodies(p) {
+		if b.Lit != nil {
+			continue
+		}
+		// delete(X.table, k) inside `for _, k := range <slice parameter>`
+		parents := parentMap(b.Decl)
+		ast.Inspect(b.Body, func(x ast.Node) bool {
+			c, ok := x.(*ast.CallExpr)
+			if !ok || !isBuiltinCall(info, c, "delete") || len(c.Args) != 2 {
+				return true
+			}
+			tf := selField(info, c.Args[0])
+			if tf == nil || !tableFields[tf] {
+				return true
+			}
+			// enclosing range over a parameter
+			var param *types.Var
+			for cur := parents[c]; cur != nil; cur = parents[cur] {
+				if rs, ok := cur.(*ast.RangeStmt); ok {
+					if id, ok := ast.Unparen(rs.X).(*ast.Ident); ok {
+						if v, ok := info.Uses[id].(*types.Var); ok {
+							sig := b.Obj.Type().(*types.Signature)
+							for i := 0; i < sig.Params().Len(); i++ {
+								if sig.Params().At(i) == v {
+									param = v
+								}
+							}
+						}
+					}
+				}
+			}
+			if param == nil {
+				return true
+			}
+			nRollbacks++
+			sig := b.Obj.Type().(*types.Signature)
+			pidx := -1
+			for i := 0; i < sig.Params().Len(); i++ {
+				if sig.Params().At(i) == param {
+					pidx = i
+				}
+			}
+			// call sites of the roll-back
+			for _, cb := range allFuncBodies(p) {
+				if cb.Lit != nil {
+					continue
+				}
+				ast.Inspect(cb.Body, func(y ast.Node) bool {
+					call, ok := y.(*ast.CallExpr)
+					if !ok || callee(info, call) != b.Obj || pidx >= len(call.Args) {
+						return true
+					}
+					lid, ok := ast.Unparen(call.Args[pidx]).(*ast.Ident)
+					if !ok {
+						w.undecided("rollback-owns-keys|"+cb.Label+"|"+b.Obj.Name(), call.Pos(), "the roll-back list is not a plain variable")
+						return true
+					}
+					lobj := info.Uses[lid]
+					// appends to the list anywhere in the caller (function literals included)
+					var check func(body *ast.BlockStmt, label string)
+					check = func(body *ast.BlockStmt, label string) {
+						for _, fl := range funcLits(body) {
+							check(fl.Body, label+"$lit")
+						}
+						isAppend := func(n ast.Node) bool {
+							as, ok := n.(*ast.AssignStmt)
+							if !ok || len(as.Lhs) != 1 || len(as.Rhs) != 1 {
+								return false
+							}
+							id, ok := as.Lhs[0].(*ast.Ident)
+							if !ok || info.Uses[id] != lobj {
+								return false
+							}
+							ac, ok := ast.Unparen(as.Rhs[0]).(*ast.CallExpr)
+							return ok && isBuiltinCall(info, ac, "append")
+						}
+						has := false
+						ast.Inspect(body, func(z ast.Node) bool {
+							if _, ok := z.(*ast.FuncLit); ok {
+								return false
+							}
+							if isAppend(z) {
+								has = true
+							}
+							return true
+						})
+						if !has {
+							return
+						}
+						// must-dataflow: "inserted" after a successful inserter call
+						g := buildCFG(info, body)
+						d := &Dataflow{G: g, Must: true, Init: Facts{}}
+						d.Transfer = func(n ast.Node, in Facts) Facts {
+							out := in
+							if as, ok := n.(*ast.AssignStmt); ok && len(as.Rhs) == 1 {
+								if ic, ok := ast.Unparen(as.Rhs[0]).(*ast.CallExpr); ok {
+									if f := callee(info, ic); f != nil && inserters[tf][f] && len(as.Lhs) >= 1 {
+										return out.with("ins:" + render(as.Lhs[len(as.Lhs)-1]))
+									}
+								}
+							}
+							return out
+						}
+						d.Branch = func(leaf ast.Expr, truth bool, s Facts) Facts {
+							if be, ok := ast.Unparen(leaf).(*ast.BinaryExpr); ok && isNilIdent(info, be.Y) && s["ins:"+render(be.X)] {
+								if (be.Op == token.EQL) == truth {
+									return s.with("inserted")
+								}
+							}
+							return s
+						}
+						d.Run()
+						d.Walk(func(_ *cfg.Block, n ast.Node, before Facts) {
+							if !isAppend(n) {
+								return
+							}
+							key := "rollback-owns-keys|" + label + "|" + lid.Name
+							if before["inserted"] {
+								w.ok(key, n.Pos(), "the key is recorded for roll-back only after its insertion succeeded")
+							} else {
+								w.violation(key, n.Pos(), "a key is appended to the roll-back list "+lid.Name+" before (or regardless of whether) its insertion into "+tf.Name()+" succeeded: when the insertion fails because another file already owns the key, "+b.Obj.Name()+" deletes that other file's registration — the failed import does not leave the table as it was, the collision is not reported again and the number can be handed out twice")
+							}
+						})
+					}
+					check(cb.Body, cb.Label)
+					return true
+				})
+			}
+			return true
+		})
+	}
+	w.info("rollback-owns-keys|rollbacks", token.NoPos, fmt.Sprintf("%d roll-back functions (delete from a packageSymbols table by a slice parameter)", nRollbacks))
 }
